@@ -233,7 +233,7 @@ def cancelGroupMetas (p : Pool) (g : String) : Pool :=
   let ms := indicesWhere p.reqs fun r => r.inRunning && r.group == g
   let p := ms.foldl (fun p m => p.metaCancel m) p
   let reqs' := p.reqs.map fun (r : Req) =>
-    if r.inRunning && r.group == g then { r with inRunning := false, inCancelled := true } else r
+    if r.inRunning && r.group == g then { r with inRunning := false, inCancelled := true, everCancelled := true } else r
   { p with reqs := reqs', metaCancelled := p.metaCancelled ++ ms }
 
 /-- `_cancel_and_remove_all_from_group` for a registry already popped; `none` = the observed order is impossible -/
